@@ -51,8 +51,8 @@ class CDevice2(Device):
 
   def _validate_param(self, p):
     v = np.array(p)
-    if not (v.ndim == 0 or len(v) == len(self)):
-        raise ValueError('param must be scalar or same length as device (%d)' % (len(self),))
+    if v.ndim != 0:
+        raise ValueError('param must be scalar')
     if not (v <= 0).all():
       raise ValueError('param must be <= 0')
     return v
